@@ -79,6 +79,32 @@ def handleChildEnv (j : Json) : Except String Json := do
   let e := EnvExport.childEnv (fun n => base.lookup n) dotenv se un chain
   return Json.mkObj [("env", Json.mkObj (names.map (fun n => (n, toJson (e n)))))]
 
+/-- {"op":"channels","params":[{name,exported,p:{kind,default}}],"words":[..],"positional":B,"shell":[..],
+    "command":S,"name":S,"script":B,"base":[[k,v]],"dotenv":[[k,v]],"setExport":B,"unexports":[..],"outer":[[binding]],
+    "names":[..]} → argv of the child and its environment at the names asked for -/
+def handleChannels (j : Json) : Except String Json := do
+  let qs : List Channels.NParam ← fromJson? (← j.getObjVal? "params")
+  let words : List String ← fromJson? (← j.getObjVal? "words")
+  let positional ← j.getObjValAs? Bool "positional"
+  let shell : List String ← fromJson? (← j.getObjVal? "shell")
+  let command ← j.getObjValAs? String "command"
+  let name ← j.getObjValAs? String "name"
+  let script ← j.getObjValAs? Bool "script"
+  let base : List (String × String) ← fromJson? (← j.getObjVal? "base")
+  let dotenv : List (String × String) ← fromJson? (← j.getObjVal? "dotenv")
+  let se ← j.getObjValAs? Bool "setExport"
+  let un : List String ← fromJson? (← j.getObjVal? "unexports")
+  let outer : List (List EnvExport.Binding) ← fromJson? (← j.getObjVal? "outer")
+  let names : List String ← fromJson? (← j.getObjVal? "names")
+  match Channels.evalParams qs words [] with
+  | none => return Json.mkObj [("error", "missingParameter")]
+  | some (sc, pos) =>
+    let argv := if script then Channels.scriptArgv shell command positional pos
+      else Channels.linewiseArgv shell command positional name pos
+    let e := Channels.recipeEnv (fun n => base.lookup n) dotenv se un outer sc
+    return Json.mkObj [("argv", toJson argv), ("values", toJson (sc.map (·.value))),
+      ("env", Json.mkObj (names.map (fun n => (n, toJson (e n)))))]
+
 def handleWorkdir (j : Json) : Except String Json := do
   let c : Workdir.Ctx ← fromJson? (← j.getObjVal? "ctx")
   let a : Workdir.Attrs ← fromJson? (← j.getObjVal? "attrs")
@@ -467,6 +493,7 @@ def handle (line : String) : Json :=
       | "run" => handleRun j
       | "signals" => handleSignals j
       | "quote" => handleQuote j
+      | "channels" => handleChannels j
       | "args" => handleArgs j
       | "childenv" => handleChildEnv j
       | "workdir" => handleWorkdir j
